@@ -5,6 +5,7 @@ package main
 
 import (
 	"context"
+	"encoding/hex"
 	"encoding/json"
 	"errors"
 	"fmt"
@@ -12,6 +13,7 @@ import (
 	"net"
 	"sort"
 	"strings"
+	"unicode/utf8"
 
 	"verifharness/vh"
 
@@ -29,6 +31,9 @@ type Op struct {
 	Mac   bool   `json:"mac,omitempty"`
 	Fail  bool   `json:"fail,omitempty"`
 	FailG bool   `json:"failg,omitempty"`
+	Down  bool   `json:"down,omitempty"` // with fail: the store is unreachable for the whole call (every store call of it fails), not only the first write
+	Dup   bool   `json:"dup,omitempty"`  // echo: the notification stays queued (it will be delivered again)
+	VH    int    `json:"vh,omitempty"`   // rputx: holder named INSIDE the value (the key names H)
 	Ord   []int  `json:"ord,omitempty"`
 	Idx   int    `json:"idx,omitempty"` // echo: which pending notification
 	// store stream
@@ -40,19 +45,20 @@ type Op struct {
 }
 
 type Case struct {
-	Kind   string `json:"kind"` // dist | bitmap | epoch | store
-	Lease  bool   `json:"lease,omitempty"`
-	Sync   bool   `json:"sync,omitempty"` // dist: deliver own watch notifications right after each call
-	Bits   int    `json:"bits,omitempty"`
-	Base   string `json:"base,omitempty"`
-	PPL    int    `json:"ppl,omitempty"`
-	PL     int    `json:"pl,omitempty"`
-	Grace  uint64 `json:"grace,omitempty"`
-	Univ   int    `json:"univ,omitempty"`
-	Pool   string   `json:"pool,omitempty"`  // dist: pool id (default "p")
-	Names  []string `json:"names,omitempty"` // dist: subscriber id of holder h (default "s<h>"); any bytes
-	Ops    []Op   `json:"ops"`
-	Origin string `json:"origin,omitempty"`
+	Kind   string   `json:"kind"` // dist | bitmap | epoch | store
+	Lease  bool     `json:"lease,omitempty"`
+	Sync   bool     `json:"sync,omitempty"` // dist: deliver own watch notifications right after each call
+	Bits   int      `json:"bits,omitempty"`
+	Base   string   `json:"base,omitempty"`
+	PPL    int      `json:"ppl,omitempty"`
+	PL     int      `json:"pl,omitempty"`
+	Grace  uint64   `json:"grace,omitempty"`
+	Univ   int      `json:"univ,omitempty"`
+	Pool   string   `json:"pool,omitempty"`   // dist: pool id (default "p")
+	Names  []string `json:"names,omitempty"`  // dist: subscriber id of holder h (default "s<h>"); any bytes
+	NamesX []string `json:"namesx,omitempty"` // the same, hex encoded (ids that are not valid UTF-8 do not survive a JSON description)
+	Ops    []Op     `json:"ops"`
+	Origin string   `json:"origin,omitempty"`
 }
 
 func bigOf(s string) *big.Int {
@@ -133,17 +139,20 @@ type hstore struct {
 	failPut bool
 	failDel bool
 	failGet bool
+	down    bool // every call fails until cleared
 	cb      func(key string, value []byte, deleted bool)
 	pending []note
 	puts    int
 	dels    int
+	gets    int
 }
 
 var errInjected = errors.New("injected store failure")
 
 func (s *hstore) Get(ctx context.Context, key string) ([]byte, error) {
-	if s.failGet {
+	if s.failGet || s.down {
 		s.failGet = false
+		s.gets++
 		return nil, errInjected
 	}
 	if v, ok := s.data[key]; ok {
@@ -153,7 +162,7 @@ func (s *hstore) Get(ctx context.Context, key string) ([]byte, error) {
 }
 func (s *hstore) Put(ctx context.Context, key string, value []byte) error {
 	s.puts++
-	if s.failPut {
+	if s.failPut || s.down {
 		s.failPut = false
 		return errInjected
 	}
@@ -163,7 +172,7 @@ func (s *hstore) Put(ctx context.Context, key string, value []byte) error {
 }
 func (s *hstore) Delete(ctx context.Context, key string) error {
 	s.dels++
-	if s.failDel {
+	if s.failDel || s.down {
 		s.failDel = false
 		return errInjected
 	}
@@ -203,6 +212,13 @@ func (c Case) poolID() string {
 	return c.Pool
 }
 func (c Case) name(h int) string {
+	if h < len(c.NamesX) {
+		b, err := hex.DecodeString(c.NamesX[h])
+		if err != nil {
+			panic(err)
+		}
+		return string(b)
+	}
 	if h < len(c.Names) {
 		return c.Names[h]
 	}
@@ -216,7 +232,7 @@ func (c Case) holderOf(id string) int {
 	}
 	return 999
 }
-func (c Case) prefix() string    { return "/allocation/" + c.poolID() + "/" }
+func (c Case) prefix() string     { return "/allocation/" + c.poolID() + "/" }
 func (c Case) keyOf(h int) string { return c.prefix() + c.name(h) }
 
 type recT struct {
@@ -377,16 +393,18 @@ func (d *distRun) freeUnits(h int) []*big.Int {
 func (d *distRun) remotePut(h int, r recT) {
 	c := d.c
 	key := c.keyOf(h)
-	val, _ := json.Marshal(&allocator.DistributedAllocation{PoolID: c.poolID(), SubscriberID: c.name(h),
+	val, _ := json.Marshal(&allocator.DistributedAllocation{PoolID: c.poolID(), SubscriberID: r.sid,
 		Prefix: fmt.Sprintf("%s/%d", ipOf(r.a, c.Bits).String(), r.pl), Epoch: r.ep})
 	d.st.data[key] = val
 	if d.st.cb != nil {
 		d.st.cb(key, val, false)
 	}
-	d.emit(fmt.Sprintf("WRemotePut %s %s %s %d %d", vh.Str(key), vh.Str(c.name(h)), r.a.String(), r.pl, r.ep), "ROk")
+	d.emit(fmt.Sprintf("WRemotePut %s %s %s %d %d", vh.Str(key), vh.Str(r.sid), r.a.String(), r.pl, r.ep), "ROk")
 }
 
-func (d *distRun) clearFlags() { d.st.failPut, d.st.failDel, d.st.failGet = false, false, false }
+func (d *distRun) clearFlags() {
+	d.st.failPut, d.st.failDel, d.st.failGet, d.st.down = false, false, false, false
+}
 
 func runDist(c Case) vh.Case {
 	d := &distRun{c: c, st: &hstore{data: map[string][]byte{}}, tags: map[string]bool{}}
@@ -400,7 +418,10 @@ func runDist(c Case) vh.Case {
 		d.tags["op:"+o.K] = true
 		switch o.K {
 		case "alloc":
-			d.st.failPut = o.Fail
+			d.st.failPut, d.st.down = o.Fail, o.Fail && o.Down
+			if o.Fail && o.Down {
+				d.tags["fail:outage"] = true
+			}
 			var p *net.IPNet
 			var err error
 			if o.Mac {
@@ -422,7 +443,7 @@ func runDist(c Case) vh.Case {
 			d.emit(fmt.Sprintf("WLocal (DAlloc %d %s %s)", o.H, vh.Bool(o.Mac), vh.Bool(o.Fail)), ret)
 			d.flushSync()
 		case "rel":
-			d.st.failDel = o.Fail
+			d.st.failDel, d.st.down = o.Fail, o.Fail && o.Down
 			err := d.da.Release(bctx, c.name(o.H))
 			if o.Fail && !d.st.failDel {
 				d.tags["fail:del"] = true
@@ -435,7 +456,7 @@ func runDist(c Case) vh.Case {
 			d.emit(fmt.Sprintf("WLocal (DRelease %d %s)", o.H, vh.Bool(o.Fail)), ret)
 			d.flushSync()
 		case "renew":
-			d.st.failGet, d.st.failPut = o.FailG, o.Fail
+			d.st.failGet, d.st.failPut, d.st.down = o.FailG, o.Fail, o.FailG && o.Fail && o.Down
 			err := d.da.Renew(bctx, c.name(o.H))
 			d.clearFlags()
 			ret := "ROk"
@@ -481,6 +502,17 @@ func runDist(c Case) vh.Case {
 			d.emit("WLocal (DRestart "+vh.List(ord)+")", ret)
 		case "rput":
 			d.remotePut(o.H, recT{bigOf(o.A), o.PL, o.Ep, c.name(o.H)})
+		case "rputx": // a record whose value names another subscriber than its key (free unit chosen at run time)
+			free := d.freeUnits(o.H)
+			if len(free) == 0 {
+				continue
+			}
+			pl := c.PL
+			if c.Lease {
+				pl = 32
+			}
+			d.tags["rput:value-names-other"] = true
+			d.remotePut(o.H, recT{free[o.Idx%len(free)], pl, o.Ep, c.name(o.VH)})
 		case "rputf", "rputown": // guarded remote puts: the address is chosen at run time
 			var r recT
 			if o.K == "rputown" {
@@ -517,7 +549,11 @@ func runDist(c Case) vh.Case {
 			}
 			i := o.Idx % len(d.st.pending)
 			n := d.st.pending[i]
-			d.st.pending = append(d.st.pending[:i:i], d.st.pending[i+1:]...)
+			if o.Dup {
+				d.tags["echo:dup"] = true
+			} else {
+				d.st.pending = append(d.st.pending[:i:i], d.st.pending[i+1:]...)
+			}
 			d.deliver(n)
 			d.tags["echo:late"] = true
 		default:
@@ -543,8 +579,14 @@ func runDist(c Case) vh.Case {
 		names = append(names, fmt.Sprintf("(%d, %s)", h, vh.Str(c.name(h))))
 	}
 	wire := "(" + vh.Str(c.poolID()) + ", " + vh.List(names) + ")"
-	if len(c.Names) > 0 {
-		tl = append(tl, "ids:path-like")
+	if len(c.Names) > 0 || len(c.NamesX) > 0 {
+		tl = append(tl, "ids:hostile")
+	}
+	for h := 0; h < c.Univ; h++ {
+		if !utf8.ValidString(c.name(h)) {
+			tl = append(tl, "ids:invalid-utf8")
+			break
+		}
 	}
 	return vh.Case{Coq: "(" + cfg + ", " + wire + ",\n " + vh.List(d.trace) + ")", Desc: c, Tags: tl}
 }
